@@ -1,18 +1,20 @@
 (* C06 runner: decodes a case, runs model and spec. Executable only. *)
 From Coq Require Import List ZArith QArith Qabs Bool Arith.
-From Gst Require Import lib.Sx lib.QAux C06.Model C06.Spec C06.Knn.
+From Gst Require Import lib.Sx lib.QAux C06.Model C06.Spec C06.Knn C06.KnnE.
 Import ListNotations.
 
 Definition asQs := asListOf asQ.
 Definition asNats := asListOf asNat.
 
-Definition asSample (s : sx) : option sample :=
+Definition asOQs := asListOf asOQ.
+(* (sel coords vars code fext); an undefined coordinate / drift / variable / code is () *)
+Definition asSample (s : sx) : option xsample :=
   match s with
-  | L [a; x; v; c] =>
-      match asB a, asQs x, asListOf asOQ v, asOQ c with
-      | Some a', Some x', Some v', Some c' =>
-          Some {| s_active := a'; s_coords := x'; s_vars := v'; s_code := c' |}
-      | _, _, _, _ => None
+  | L [a; x; v; c; f] =>
+      match asB a, asOQs x, asOQs v, asOQ c, asOQs f with
+      | Some a', Some x', Some v', Some c', Some f' =>
+          Some {| x_active := a'; x_coords := x'; x_fext := f'; x_vars := v'; x_code := c' |}
+      | _, _, _, _, _ => None
       end
   | _ => None
   end.
@@ -58,7 +60,9 @@ Definition run_moving (ints rad coe ang fl chk smp tg hv : sx) : sx :=
   match asListOf asZ ints, asOQ rad, asQs coe, asQs ang, asListOf asZ fl,
         asListOf asChecker chk, asListOf asSample smp, asTarget tg with
   | Some [ndim; nmini; nmaxi; nsect; nsmax], Some radius, Some coeffs, Some angles,
-    Some [xv; kf; hc; useball; leaf], Some checkers, Some samples, Some t =>
+    Some [xv; kf; hc; useball; leaf], Some checkers, Some xsamples, Some t =>
+      let samples := map x_total xsamples in
+      let cdef := map (fun x => forallb is_def (x_coords x)) xsamples in
       let '(rotmat, sectors, ellig) :=
         match hv with
         | L [r; s; e] =>
@@ -78,37 +82,40 @@ Definition run_moving (ints rad coe ang fl chk smp tg hv : sx) : sx :=
                   p_checkers := checkers |} in
       let tab := combine (map (fun s => let inc := tincr p t s in (nthQ inc 0, nthQ inc 1)) samples) sectors in
       let oracle := mk_oracle tab in
-      let res := if nz useball then moving_ball oracle p t samples ellig else moving oracle p t samples in
-      let spec := spec_moving oracle p t samples in
-      let cands := sort_cands (cand_loop oracle p t (enum samples)) in
+      let res := if nz useball then moving_ball_x oracle p t xsamples ellig else moving_x oracle p t xsamples in
+      let spec := spec_moving_x oracle p t xsamples in
+      let cands := sort_cands (cand_loop_x oracle p t (enum xsamples)) in
+      let dsamples := map snd (filter (fun bs => fst bs) (combine cdef samples)) in
       let m := maxQ (map c_d2 cands) in
       let gap := if qeqb m 0 then None else gap_min m cands None in
       let d2s := map (dist2 p t) samples in
+      let d2def := map (dist2 p t) dsamples in
       let '(radm, radeq) := match radius with
-                            | Some r => if qltb 0 r then rad_margin (r * r) d2s else (None, false)
+                            | Some r => if qltb 0 r then rad_margin (r * r) d2def else (None, false)
                             | None => (None, false) end in
       let nbound := length (filter (fun s => let inc := tincr p t s in
-                                    flag_sector p && is_sector_boundary (p_nsect p) (nthQ inc 0) (nthQ inc 1)) samples) in
-      let xvm := existsb (fun s => let e := eucl2 p t s in qltb 0 e && qltb e (1 # 1000000000000)) samples in
+                                    flag_sector p && is_sector_boundary (p_nsect p) (nthQ inc 0) (nthQ inc 1)) dsamples) in
+      let xvm := existsb (fun s => let e := eucl2 p t s in qltb 0 e && qltb e (1 # 1000000000000)) dsamples in
       L [I (r_code res); ofList ofNat (r_ranks res); ofList ofNat spec;
          L [ofOQ gap; ofOQ radm; ofB radeq; ofNat nbound; ofB xvm];
-         L [ofNat (length cands); ofList ofNat (map c_idx (map fst (filter (fun ca => snd ca) (r_sorted res)))); ofList ofQ d2s]]
+         L [ofNat (length cands); ofList ofNat (map c_idx (map fst (filter (fun ca => snd ca) (r_sorted res)))); ofList ofQ d2s; ofQ m;
+            ofQ (maxQ (map c_d2 (if nz useball then cand_loop_ball_x oracle p t (map (fun i => (i, nth i xsamples dummy_xsample)) ellig) else cand_loop_x oracle p t (enum xsamples))))];
+         (let ofSum sm := L [ofNat (sm_number sm); ofOQ (sm_max2 sm); ofOQ (sm_min2 sm); ofNat (sm_nonempty sm); ofNat (sm_cempty sm)] in
+          let rawc := if nz useball then cand_loop_ball_x oracle p t (map (fun i => (i, nth i xsamples dummy_xsample)) ellig)
+                      else cand_loop_x oracle p t (enum xsamples) in
+          L [ofSum (moving_summary p (if (Z.of_nat (length xsamples) <? p_nmini p)%Z then [] else rawc) res);
+             ofSum (summary_spec (p_nsect p) (r_sorted res))])]
   | _, _, _, _, _, _, _, _ => sx_error 1
   end.
 
 (* ------------------------------------------------------------------ KNN *)
-Fixpoint sqeuclid (a b : pt) : Q :=
-  match a, b with
-  | x :: a', y :: b' => (x - y) * (x - y) + sqeuclid a' b'
-  | _, _ => 0
-  end.
 Definition asQuery (s : sx) : option (pt * nat) :=
   match s with
   | L [q; k] => match asQs q, asNat k with Some q', Some k' => Some (q', k') | _, _ => None end
   | _ => None
   end.
 Definition ofExt (e : ext) : sx := ofOQ e.
-(* (metric leaf points queries): metric 2 = Manhattan (model + spec), metric 1 = Euclidean (spec on squares only) *)
+(* (metric leaf points queries): metric 2 = Manhattan, metric 1 = Euclidean (model and spec on SQUARED distances) *)
 Definition run_knn (rest : list sx) : sx :=
   match rest with
   | [I metric; I leaf; pts; qs] =>
@@ -116,7 +123,7 @@ Definition run_knn (rest : list sx) : sx :=
       | Some data, Some queries =>
           let nfeat := match data with [] => 0%nat | x :: _ => length x end in
           let dist := if Z.eqb metric 2 then manhattan else sqeuclid in
-          let t := if Z.eqb metric 2 then Some (btree_init manhattan nfeat data leaf) else None in
+          let tr := if Z.eqb metric 2 then btree_init manhattan nfeat data leaf else btree_init_e nfeat data leaf in
           L (map (fun qk : pt * nat =>
                     let (q, k) := qk in
                     let spec := knn_spec dist data (S k) q in
@@ -125,12 +132,10 @@ Definition run_knn (rest : list sx) : sx :=
                                | _, _ => false
                                end in
                     let speck := firstn k spec in
-                    let m := match t with
-                             | Some t' => match knn_query manhattan data t' k q with
-                                          | Some h => L [ofList (fun e => ofExt (fst e)) h; ofList (fun e => ofNat (snd e)) h]
-                                          | None => L [I (-1)%Z]
-                                          end
-                             | None => L []
+                    let res := if Z.eqb metric 2 then knn_query manhattan data tr k q else knn_query_e data tr k q in
+                    let m := match res with
+                             | Some h => L [ofList (fun e => ofExt (fst e)) h; ofList (fun e => ofNat (snd e)) h]
+                             | None => L [I (-1)%Z]
                              end in
                     L [m; ofList (fun e => ofQ (fst e)) speck; ofList (fun e => ofNat (snd e)) speck; ofB tie]) queries)
       | _, _ => sx_error 1
